@@ -819,6 +819,28 @@ func (c *symCtx) callFn(callee *ssa.Function, args, free []sv, depth int) (sv, b
 			return sv{k: 'I', tup: []sv{{k: 'p', addr: "R:error"}}}, true
 		case "(time.Duration).String", "strconv.FormatInt", "strconv.Itoa":
 			return sv{k: 's', i: 1, addr: c.fresh("fmt")}, true
+		case "(encoding/binary.bigEndian).PutUint16", "(encoding/binary.bigEndian).PutUint32", "(encoding/binary.bigEndian).PutUint64":
+			// big-endian bytes of a known value into a slice with a backing (used when an encoder is evaluated on a
+			// concrete buffer)
+			w := map[string]int64{"(encoding/binary.bigEndian).PutUint16": 2, "(encoding/binary.bigEndian).PutUint32": 4, "(encoding/binary.bigEndian).PutUint64": 8}[fullName(callee)]
+			if len(args) < 2 {
+				return sv{}, c.fail("%s: arguments", fullName(callee))
+			}
+			b, v := args[len(args)-2], args[len(args)-1]
+			if b.k != 's' || b.addr == "" {
+				return sv{}, c.fail("%s on an abstract slice", fullName(callee))
+			}
+			if b.i < w {
+				return sv{}, c.fail("%s on %d byte(s): index out of range", fullName(callee), b.i)
+			}
+			for k := int64(0); k < w; k++ {
+				cell := sv{k: 'u'}
+				if v.k == 'i' {
+					cell = sv{k: 'i', i: int64(uint64(v.i)>>(uint(w-1-k)*8)) & 0xff}
+				}
+				c.mem[fmt.Sprintf("%s[%d]", b.addr, b.off+k)] = cell
+			}
+			return sv{k: 't'}, true
 		case "(encoding/binary.bigEndian).Uint16", "(encoding/binary.bigEndian).Uint32", "(encoding/binary.bigEndian).Uint64":
 			// big-endian composition of concrete bytes (used when a wire decoder is evaluated on concrete input)
 			w := map[string]int64{"(encoding/binary.bigEndian).Uint16": 2, "(encoding/binary.bigEndian).Uint32": 4, "(encoding/binary.bigEndian).Uint64": 8}[fullName(callee)]
